@@ -154,6 +154,46 @@ type lockstep struct {
 	held     map[int]bool
 	monitor  string
 	protocol bool
+	// false-exhaustion monitor: per thread inside GetStream, the ids that have been free at EVERY moment
+	// since the call began (sampled after every atomic step of any thread; nil = not inside GetStream)
+	getFree [][]uint64
+}
+
+// wordsNow: the bitset words (bit 63-j of word w = id 64w+j), read while every other goroutine is parked
+func wordsNow(g *gocql.VerifStreams) []uint64 {
+	f := strings.Fields(strings.TrimRight(g.String(), "\x00"))
+	ws := make([]uint64, len(f))
+	for i, hx := range f {
+		if hx != "0" {
+			ws[i], _ = strconv.ParseUint(hx, 16, 64)
+		}
+	}
+	return ws
+}
+
+// freeMask: per word the ids that are free right now (id 0 is reserved: its bit is always set)
+func freeMask(g *gocql.VerifStreams) []uint64 {
+	ws := wordsNow(g)
+	for i := range ws {
+		ws[i] = ^ws[i]
+	}
+	return ws
+}
+
+// sample intersects every in-progress GetStream's candidate set with the ids free right now
+func (ls *lockstep) sample() {
+	var now []uint64
+	for _, m := range ls.getFree {
+		if m == nil {
+			continue
+		}
+		if now == nil {
+			now = freeMask(ls.g)
+		}
+		for i := range m {
+			m[i] &= now[i]
+		}
+	}
 }
 
 var active *lockstep
@@ -179,7 +219,22 @@ func (ls *lockstep) thread(t int, script []string) {
 		var ret string
 		switch {
 		case op == "g":
+			if ls.protocol {
+				ls.getFree[t] = freeMask(ls.g)
+			}
 			ret = doGet(ls.g)
+			if ls.protocol && strings.HasSuffix(ret, ":f") {
+			scan:
+				for w, m := range ls.getFree[t] {
+					for j := 0; j < 64; j++ {
+						if m>>(63-uint(j))&1 == 1 {
+							ls.monitor += fmt.Sprintf(" MONITOR:false-exhaustion-id-%d-stayed-free", w*64+j)
+							break scan
+						}
+					}
+				}
+			}
+			ls.getFree[t] = nil
 			if strings.HasSuffix(ret, ":t") {
 				id, _ := strconv.Atoi(strings.TrimSuffix(ret, ":t"))
 				ls.mine[t] = append(ls.mine[t], id)
@@ -233,6 +288,7 @@ func (ls *lockstep) step(t int) string {
 		if ev == "d" || strings.HasSuffix(ev, ":d") {
 			ls.done[t] = true
 		}
+		ls.sample()
 		return strconv.Itoa(t) + ":" + ev
 	case <-time.After(20 * time.Second):
 		ls.done[t] = true
@@ -251,7 +307,7 @@ func runConc(proto, k int, pre []string, scripts [][]string, sched []int, choose
 		}
 	}
 	ls := &lockstep{g: g, resume: make([]chan struct{}, k), parked: make(chan string), pend: make([]string, k),
-		done: make([]bool, k), mine: make([][]int, k), held: map[int]bool{}}
+		done: make([]bool, k), mine: make([][]int, k), held: map[int]bool{}, getFree: make([][]uint64, k)}
 	for t := 0; t < k; t++ {
 		ls.resume[t] = make(chan struct{})
 	}
